@@ -10,6 +10,8 @@ pub mod util;
 #[cfg(kani)]
 pub mod c01;
 #[cfg(kani)]
+pub mod c02;
+#[cfg(kani)]
 pub mod c03;
 #[cfg(kani)]
 pub mod c08;
@@ -19,6 +21,8 @@ pub mod c09;
 pub mod c11;
 #[cfg(kani)]
 pub mod c12;
+#[cfg(kani)]
+pub mod c13;
 #[cfg(kani)]
 pub mod c14;
 #[cfg(kani)]
